@@ -20,6 +20,8 @@ pub enum RawAddr {
     Valid(String),
     /// sent as [`INVALID_ADDR`]
     Invalid,
+    /// another string that does not validate either (e.g. "1", "", "ab", "ALICE"); encoded like `Invalid`
+    Odd(String),
 }
 
 impl RawAddr {
@@ -32,6 +34,7 @@ impl RawAddr {
         match self {
             RawAddr::Valid(s) => s.clone(),
             RawAddr::Invalid => INVALID_ADDR.to_string(),
+            RawAddr::Odd(s) => s.clone(),
         }
     }
 }
